@@ -109,7 +109,7 @@ PairCfg paircfg_from_plan(const Plan &p) {
     c.cb_s = (int) p.get("cb_s", CB_ALLOW_ALL);
     c.cb_allow_alert_c = (int) p.get("cb_alert", 0);
     c.client_trusts_server = p.get("trust", 1) != 0;
-    c.forge_server_cert = p.get("forge_s") != 0; c.forge_client_cert = p.get("forge_c") != 0; c.forge_mode = (int) p.get("forge_mode"); c.max_frag = (int) p.get("maxfrag"); c.send_sni = (int) p.get("sni"); c.chain = p.get("chain") != 0;
+    c.forge_server_cert = p.get("forge_s") != 0; c.forge_client_cert = p.get("forge_c") != 0; c.forge_mode = (int) p.get("forge_mode"); c.max_frag = (int) p.get("maxfrag"); c.send_sni = (int) p.get("sni"); c.chain = p.get("chain") != 0; c.ocsp = (int) p.get("ocsp");
     c.expected_name = p.gets("expected_name");
     c.max_early_data = (int) p.get("early", 0);
     c.ems_c = (int) p.get("ems_c", 0);
@@ -133,7 +133,7 @@ bool TlsWorld::setup(const PairCfg &c) {
     vsim_set_node(NODE_HARNESS);
     KeySpec s, k;
     s.identity = pc.server_identity; s.forge_cert_sig = pc.forge_server_cert; s.forge_cert_mode = pc.forge_mode;
-    s.chain = k.chain = pc.chain;
+    s.chain = k.chain = pc.chain; s.ocsp = pc.ocsp;
     s.psk = pc.psk; s.ticket_keys = pc.tickets; s.ticket_key_id = pc.ticket_key_id; s.tls13_psk = pc.tls13_ext_psk;
     if (pc.client_auth && pc.client_identity != KK_NONE) { s.ca_mask = 1u << pc.client_identity; }
     else if (pc.client_auth) { s.ca_mask = 1u << KK_RSA2048; }
@@ -144,6 +144,7 @@ bool TlsWorld::setup(const PairCfg &c) {
         if (pc.client_trusts_server) { k.ca_mask = 1u << pc.server_identity; }
         else { k.ca_mask = 1u << (pc.server_identity == KK_EC384 ? KK_EC521 : KK_EC384); }   // some other CA: unknown issuer
     }
+    if (pc.ocsp) { k.ca_mask |= 1u << KK_EC384; }      // the stapled test responses are signed by the P-384 test certificate: the client must be able to authenticate that responder
     int rc = 0;
     vsim_set_node(NODE_SERVER);
     skeys = load_keys(s, &rc);
@@ -175,6 +176,7 @@ bool TlsWorld::connect(bool use_sid) {
     c.fallback_scsv = pc.fallback_scsv;
     s.max_early_data = pc.max_early_data;
     c.groups = pc.groups_c; s.groups = pc.groups_s; c.key_shares = pc.key_shares;
+    c.ocsp_stapling = pc.ocsp != 0;
     c.sigalgs = pc.sigalgs_c; s.sigalgs = pc.sigalgs_s; c.max_frag = pc.max_frag; c.send_sni = pc.send_sni;
     c.sid = use_sid ? sid : nullptr;
     srv.reset(new MxEndpoint()); cli.reset(new MxEndpoint());
